@@ -6,11 +6,6 @@ RECURSIVE SeqsUpTo(_)
 SeqsUpTo(n) == IF n = 0 THEN {<<>>} ELSE LET S == SeqsUpTo(n - 1) IN S \cup {Append(x, c) : x \in {y \in S : Len(y) = n - 1}, c \in AlphabetDef}
 \* every string over one representative per character class, up to MaxLen
 ClassStrings == SeqsUpTo(MaxLen)
-\* length 5 over a reduced set of classes (17^5 strings take TLC more than 50 minutes; measured)
-Alphabet5 == {" ", "[", ")", "|", ".", "-", "=", "<", ">", "A", "a", "1", "#"}
-RECURSIVE SeqsUpTo5(_)
-SeqsUpTo5(n) == IF n = 0 THEN {<<>>} ELSE LET S == SeqsUpTo5(n - 1) IN S \cup {Append(x, c) : x \in {y \in S : Len(y) = n - 1}, c \in Alphabet5}
-ClassStrings5 == SeqsUpTo(4) \cup SeqsUpTo5(5)
 \* strings recorded in a file (random whole specs, harvested specs): lexstrings.json = list of character lists
 FileStrings == LET L == JsonDeserialize("lexstrings.json") IN {L[i] : i \in DOMAIN L}
 ====
